@@ -66,7 +66,7 @@ import (
 
 // ---------------------------------------------------------------- monitor
 
-var kindOrder = []string{"post", "tmr", "tz", "lev", "gev", "req", "mute", "raw", "ntf", "slow", "sib", "rsp", "tmo", "sfl", "sadd", "smsg", "srem"}
+var kindOrder = []string{"post", "tmr", "tz", "lev", "dlev", "gev", "req", "mute", "raw", "ntf", "slow", "sib", "rsp", "tmo", "sfl", "sadd", "smsg", "srem"}
 
 type kstat struct {
 	n     int
@@ -104,6 +104,10 @@ func goid() uint64 {
 
 var spinSink uint64
 
+// pieces that run synchronously inside another piece by design: the callback of a request that could
+// not be serialised (inside Request), a listener of an event centre in direct mode (inside Publish)
+var nestedByDesign = map[string]bool{"sfl": true, "dlev": true}
+
 // enter records one entry into the service's code; the returned function marks the exit.
 func (m *mon) enter(kind string) func() {
 	g := goid()
@@ -116,7 +120,7 @@ func (m *mon) enter(kind string) func() {
 	m.inside[g]++
 	// `sfl` (the callback of a request that could not be serialised) is called synchronously inside
 	// Request by design; every other kind is a piece of its own and must not start inside another
-	if kind != "sfl" {
+	if !nestedByDesign[kind] {
 		m.total++
 	}
 	in := m.total
@@ -179,14 +183,14 @@ func (m *mon) enter(kind string) func() {
 		if m.inside[g]--; m.inside[g] <= 0 {
 			delete(m.inside, g)
 		}
-		if kind != "sfl" {
+		if !nestedByDesign[kind] {
 			m.total--
 		}
 		m.mu.Unlock()
 	}
 }
 
-func (m *mon) report() string {
+func (m *mon) report(wild ...string) string {
 	m.mu.Lock()
 	defer m.mu.Unlock()
 	var parts []string
@@ -203,7 +207,13 @@ func (m *mon) report() string {
 			}
 			gs = append(gs, strconv.Itoa(g))
 		}
-		parts = append(parts, fmt.Sprintf("%s=%d/%s/%d", k, st.n, strings.Join(gs, "+"), st.maxIn))
+		cnt := strconv.Itoa(st.n)
+		for _, wk := range wild {
+			if wk == k {
+				cnt = "~" // how many of these ran is legitimately up to the scheduler
+			}
+		}
+		parts = append(parts, fmt.Sprintf("%s=%s/%s/%d", k, cnt, strings.Join(gs, "+"), st.maxIn))
 	}
 	for k := range m.stats {
 		known := false
@@ -328,15 +338,17 @@ type plain struct{ X int } // not a proto.Message: remote.Serialize fails
 // ---------------------------------------------------------------- world
 
 type world struct {
-	early func(obs string)
-	sys   *actor.ActorSystem
-	nCase int
-	a, b  *hsvc
-	pa    *actor.PID
-	pb    *actor.PID
-	sibs  []*actor.PID // 12 more actors spawned from A's props: same dispatcher, same run service
-	lev   string
-	gev   string
+	early  func(obs string)
+	sys    *actor.ActorSystem
+	nCase  int
+	a, b   *hsvc
+	pa     *actor.PID
+	pb     *actor.PID
+	direct bool // event centres of this case are in direct mode (SetLocalUseChan(false))
+	open   []*fakeSession
+	sibs   []*actor.PID // 12 more actors spawned from A's props: same dispatcher, same run service
+	lev    string
+	gev    string
 }
 
 const nSibs = 12
@@ -379,6 +391,7 @@ func (w *world) reset() string {
 	w.a, w.pa, w.sibs = w.spawn("a", nSibs)
 	w.b, w.pb, _ = w.spawn("b", 0)
 	w.a.peer, w.b.peer = w.pb, w.pa
+	w.direct = false
 	w.lev = fmt.Sprintf("c04.lev%d", w.nCase)
 	w.gev = fmt.Sprintf("c04.gev%d", w.nCase)
 	for _, s := range []*hsvc{w.a, w.b} {
@@ -390,24 +403,30 @@ func (w *world) reset() string {
 		s.Post(func() {
 			defer s.m.enter("post")()
 			ec := s.GetRunService().GetEventCenter()
-			ec.Subscribe(w.lev, func(args ...interface{}) { defer s.m.enter("lev")() })
+			ec.Subscribe(w.lev, func(args ...interface{}) {
+				if w.direct {
+					defer s.m.enter("dlev")()
+				} else {
+					defer s.m.enter("lev")()
+				}
+			})
 			ec.GSubscribe(w.gev, func(args ...interface{}) { defer s.m.enter("gev")() })
 		})
-		synctest.Wait()
+		settle()
 	}
 	return "ok A:" + w.a.m.report() + " B:" + w.b.m.report()
 }
 
 type burst struct {
-	p, post, tmr, rep, lev, gev, req, raw, ntf, tmo, sfl, ses, msg, slow, z, sib int
-	dw                                                                           string
+	p, post, tmr, rep, lev, gev, req, raw, ntf, tmo, sfl, ses, msg, slow, z, sib, own int
+	dw                                                                                string
 }
 
 func parseBurst(ws []string) (burst, bool) {
 	var b burst
 	fields := map[string]*int{"p": &b.p, "post": &b.post, "tmr": &b.tmr, "rep": &b.rep, "lev": &b.lev, "gev": &b.gev,
 		"req": &b.req, "raw": &b.raw, "ntf": &b.ntf, "tmo": &b.tmo, "sfl": &b.sfl, "ses": &b.ses, "msg": &b.msg,
-		"slow": &b.slow, "z": &b.z, "sib": &b.sib}
+		"slow": &b.slow, "z": &b.z, "sib": &b.sib, "own": &b.own}
 	for k, ptr := range fields {
 		v, ok := hx.KV(ws, k)
 		if !ok {
@@ -425,7 +444,7 @@ func parseBurst(ws []string) (burst, bool) {
 	default:
 		return b, false
 	}
-	if b.p < 1 || b.p > 16 || b.tmo > 1 || b.ses > 40 || b.msg > 40 || b.slow > 10 || b.sib > nSibs {
+	if b.p < 1 || b.p > 16 || b.tmo > 1 || b.ses > 40 || b.msg > 40 || b.slow > 10 || b.sib > nSibs || b.own > 1 {
 		return b, false
 	}
 	return b, true
@@ -483,7 +502,25 @@ func (w *world) burst(b burst) string {
 			s.GetRunService().GetTimerMgr().After(-time.Duration(j%3)*time.Millisecond, func(args ...interface{}) { defer s.m.enter("tz")() })
 		})
 		// local events: published from p goroutines through the centre's channel
-		fanout(b.p, b.lev, func(j int) { s.GetRunService().GetEventCenter().Publish(w.lev, j) })
+		// (own=1: from the service's own goroutine; a centre in direct mode may only be published to by
+		// its owner — the listener then runs inside Publish — so there the owner always publishes);
+		// own=1 also makes A the publisher of the global events
+		ownLev := b.lev > 0 && (b.own == 1 || w.direct)
+		ownGev := b.gev > 0 && b.own == 1 && s == w.a
+		if ownLev || ownGev {
+			s.Post(func() {
+				defer s.m.enter("post")()
+				for j := 0; ownLev && j < b.lev; j++ {
+					s.GetRunService().GetEventCenter().Publish(w.lev, j)
+				}
+				for j := 0; ownGev && j < b.gev; j++ {
+					event.GetGlobalEC().Publish(w.gev, j)
+				}
+			})
+		}
+		if !ownLev {
+			fanout(b.p, b.lev, func(j int) { s.GetRunService().GetEventCenter().Publish(w.lev, j) })
+		}
 		// notifies from outside any service
 		pid := w.pa
 		if s == w.b {
@@ -543,7 +580,9 @@ func (w *world) burst(b burst) string {
 		})
 	}
 	// global events: one publisher, both services are subscribed
-	fanout(1, b.gev, func(j int) { event.GetGlobalEC().Publish(w.gev, j) })
+	if b.own == 0 {
+		fanout(1, b.gev, func(j int) { event.GetGlobalEC().Publish(w.gev, j) })
+	}
 	// client connections of front-end A: one network goroutine per connection
 	for i := 0; i < b.ses; i++ {
 		i := i
@@ -567,6 +606,7 @@ func (w *world) burst(b burst) string {
 		time.Sleep(33 * time.Second) // request timeout 30 s + the 1 s expiry scan
 		synctest.Wait()
 	}
+	settle()
 	return "ok A:" + w.a.m.report() + " B:" + w.b.m.report()
 }
 
@@ -583,12 +623,92 @@ func (w *world) exec(op string) string {
 		return w.reset()
 	case "burst":
 		b, ok := parseBurst(ws[1:])
-		if !ok || w.a == nil || len(ws) != 18 {
+		if !ok || w.a == nil || len(ws) != 19 {
 			return "bad-op"
 		}
 		return w.burst(b)
+	case "evmode":
+		v, ok := hx.KV(ws, "chan")
+		if len(ws) != 2 || !ok || (v != "0" && v != "1") || w.a == nil {
+			return "bad-op"
+		}
+		return w.evmode(v == "1")
+	case "stop":
+		who, _ := hx.KV(ws, "who")
+		q, okq := hx.KV(ws, "q")
+		k, okk := hx.KV(ws, "ses")
+		qn, e1 := strconv.Atoi(q)
+		kn, e2 := strconv.Atoi(k)
+		if len(ws) != 4 || !okq || !okk || e1 != nil || e2 != nil || qn < 0 || qn > 400 || kn < 0 || kn > 40 ||
+			(who != "foreign" && who != "loop") || w.a == nil {
+			return "bad-op"
+		}
+		return w.stop(who == "loop", qn, kn)
 	}
 	return "bad-op"
+}
+
+// settle waits until the work that is under way has drained: synctest.Wait returns when every goroutine
+// is blocked, and a handler dwelling in a (virtual) 1 µs sleep counts as blocked, so virtual time is let
+// pass and quiescence is awaited again
+func settle() {
+	synctest.Wait()
+	time.Sleep(5 * time.Millisecond)
+	synctest.Wait()
+	time.Sleep(time.Millisecond)
+	synctest.Wait()
+}
+
+// evmode switches the local event centres of both services between queue mode and direct mode,
+// from the owner's goroutine
+func (w *world) evmode(useChan bool) string {
+	for _, s := range []*hsvc{w.a, w.b} {
+		s := s
+		s.Post(func() {
+			defer s.m.enter("post")()
+			s.GetRunService().GetEventCenter().SetLocalUseChan(useChan)
+		})
+	}
+	settle()
+	w.direct = !useChan
+	return "ok A:" + w.a.m.report() + " B:" + w.b.m.report()
+}
+
+// stop ends service A: k client connections are open; while A is inside a long piece with q more
+// posted closures queued behind it, its run service is stopped (by a foreign goroutine, or by the piece
+// itself); afterwards the connections close.  How many of the queued closures still run before the loop
+// sees the close signal is up to reflect.Select, so their count is not compared ("~"); after the stop
+// nothing of A may run anywhere but on A's goroutine (and in fact nothing runs at all).
+func (w *world) stop(fromLoop bool, q, k int) string {
+	a := w.a
+	var conns []*fakeSession
+	for i := 0; i < k; i++ {
+		fs := &fakeSession{}
+		conns = append(conns, fs)
+		go a.simpl.OnSessionCreate(fs)
+	}
+	settle()
+	a.Post(func() {
+		defer a.m.enter("post")()
+		for j := 0; j < q; j++ {
+			a.Post(func() { defer a.m.enter("post")() })
+		}
+		if fromLoop {
+			a.GetRunService().Stop()
+		} else {
+			go a.GetRunService().Stop()
+		}
+		time.Sleep(time.Millisecond) // still inside this piece while Stop runs elsewhere
+	})
+	settle()
+	for _, fs := range conns {
+		fs := fs
+		go a.simpl.OnSessionClose(fs)
+	}
+	settle()
+	obs := "ok A:" + a.m.report("post") + " B:" + w.b.m.report()
+	w.a = nil // the case is over: A is gone
+	return obs
 }
 
 // ---------------------------------------------------------------- generator
@@ -656,21 +776,27 @@ func genBurst(h *hx.T) string {
 	if b.tmo > 0 {
 		h.Count("burst.with-timeout")
 	}
+	if r.Intn(4) == 0 {
+		b.own = 1
+		h.Count("burst.events-published-by-owner")
+	}
 	h.Count("dwell." + dw)
-	return fmt.Sprintf("burst p=%d post=%d tmr=%d rep=%d lev=%d gev=%d req=%d raw=%d ntf=%d tmo=%d sfl=%d ses=%d msg=%d slow=%d z=%d sib=%d dw=%s",
-		p, b.post, b.tmr, b.rep, b.lev, b.gev, b.req, b.raw, b.ntf, b.tmo, b.sfl, b.ses, b.msg, b.slow, b.z, b.sib, dw)
+	return fmt.Sprintf("burst p=%d post=%d tmr=%d rep=%d lev=%d gev=%d req=%d raw=%d ntf=%d tmo=%d sfl=%d ses=%d msg=%d slow=%d z=%d sib=%d own=%d dw=%s",
+		p, b.post, b.tmr, b.rep, b.lev, b.gev, b.req, b.raw, b.ntf, b.tmo, b.sfl, b.ses, b.msg, b.slow, b.z, b.sib, b.own, dw)
 }
 
 const z13 = "tmr=0 rep=0 lev=0 gev=0 req=0 raw=0 ntf=0"
 
-var malformed = []string{"burst", "burst p=0 post=1 " + z13 + " tmo=0 sfl=0 ses=0 msg=0 slow=0 z=0 sib=0 dw=spin",
-	"burst p=2 post=x " + z13 + " tmo=0 sfl=0 ses=0 msg=0 slow=0 z=0 sib=0 dw=spin",
-	"burst p=2 post=1 " + z13 + " tmo=2 sfl=0 ses=0 msg=0 slow=0 z=0 sib=0 dw=spin",
-	"burst p=2 post=1 " + z13 + " tmo=0 sfl=0 ses=0 msg=0 slow=0 z=0 sib=0 dw=nap",
-	"burst p=2 post=1 " + z13 + " tmo=0 sfl=0 ses=0 msg=0 slow=0 z=0 sib=13 dw=spin",
-	"burst p=2 post=1 " + z13 + " tmo=0 sfl=0 ses=0 msg=0 slow=11 z=0 sib=0 dw=spin",
+var malformed = []string{"burst", "burst p=0 post=1 " + z13 + " tmo=0 sfl=0 ses=0 msg=0 slow=0 z=0 sib=0 own=0 dw=spin",
+	"burst p=2 post=x " + z13 + " tmo=0 sfl=0 ses=0 msg=0 slow=0 z=0 sib=0 own=0 dw=spin",
+	"burst p=2 post=1 " + z13 + " tmo=2 sfl=0 ses=0 msg=0 slow=0 z=0 sib=0 own=0 dw=spin",
+	"burst p=2 post=1 " + z13 + " tmo=0 sfl=0 ses=0 msg=0 slow=0 z=0 sib=0 own=0 dw=nap",
+	"burst p=2 post=1 " + z13 + " tmo=0 sfl=0 ses=0 msg=0 slow=0 z=0 sib=13 own=0 dw=spin",
+	"burst p=2 post=1 " + z13 + " tmo=0 sfl=0 ses=0 msg=0 slow=0 z=0 sib=0 own=2 dw=spin",
+	"evmode", "evmode chan=2", "stop who=me q=1 ses=1", "stop who=loop q=1", "stop who=foreign q=401 ses=0",
+	"burst p=2 post=1 " + z13 + " tmo=0 sfl=0 ses=0 msg=0 slow=11 z=0 sib=0 own=0 dw=spin",
 	"burst p=2 post=1 " + z13 + " tmo=0 sfl=0 ses=0 msg=0 dw=spin",
-	"burst p=2 post=1", "reset now", "frobnicate", "burst p=2 post=401 " + z13 + " tmo=0 sfl=0 ses=0 msg=0 slow=0 z=0 sib=0 dw=spin"}
+	"burst p=2 post=1", "reset now", "frobnicate", "burst p=2 post=401 " + z13 + " tmo=0 sfl=0 ses=0 msg=0 slow=0 z=0 sib=0 own=0 dw=spin"}
 
 func TestRun(t *testing.T) {
 	synctest.Test(t, func(t *testing.T) {
@@ -725,15 +851,36 @@ func TestRun(t *testing.T) {
 		n := hx.EnvInt("VERIF_N", 120)
 		for done := 0; done < n; {
 			run("reset")
+			// a third of the cases run their event centres in direct mode (SetLocalUseChan(false))
+			if h.R.Intn(3) == 0 {
+				h.Count("case.direct-mode-centres")
+				run("evmode chan=0")
+			}
 			k := 1 + h.R.Intn(5)
 			for i := 0; i < k; i++ {
-				if h.R.Intn(25) == 0 {
+				switch x := h.R.Intn(50); {
+				case x < 2:
 					h.Count("op.malformed")
 					run(malformed[h.R.Intn(len(malformed))])
+					continue
+				case x < 5:
+					h.Count("op.evmode")
+					run(fmt.Sprintf("evmode chan=%d", h.R.Intn(2)))
 					continue
 				}
 				run(genBurst(h))
 				done++
+			}
+			// a third of the cases end with the front-end service being stopped under load
+			if h.R.Intn(3) == 0 {
+				who := []string{"foreign", "foreign", "loop"}[h.R.Intn(3)]
+				h.Count("case.stop-by-" + who)
+				run(fmt.Sprintf("stop who=%s q=%d ses=%d", who, []int{0, 1, 5, 40, 200}[h.R.Intn(5)], []int{0, 1, 6, 30}[h.R.Intn(4)]))
+				done++
+				if h.R.Intn(6) == 0 {
+					h.Count("op.after-stop")
+					run(genBurst(h)) // the service is gone: rejected by both sides
+				}
 			}
 		}
 		finish()
